@@ -55,6 +55,11 @@ func c12(c *Ctx) {
 		if rng.Chance(45) {
 			ctx.ConstraintExpr(Pick(rng, []string{"amd64", "amd64,!purego", "linux darwin", "go1.18,amd64 !appengine"}))
 		}
+		if rng.Chance(25) { // further lines, one of them a repetition
+			ctx.ConstraintExpr("!purego")
+			ctx.ConstraintExpr(Pick(rng, []string{"amd64", "!purego", "linux darwin"}))
+			ctx.ConstraintExpr("amd64")
+		}
 		nf := 1 + rng.Intn(4)
 		type fnInfo struct {
 			name, sig string
